@@ -1,5 +1,6 @@
 """C18 - supervised services restart after failure and never run twice at once."""
 import os
+import re
 
 import vlib
 
@@ -11,6 +12,21 @@ OVERLAY = {
 
 def classify(clause, case, verdict):
     return clause
+
+
+def _sorted_traces(path):
+    blocks = {}
+    for ln in open(path):
+        parts = ln.split(" ", 2)
+        if len(parts) >= 2:
+            blocks.setdefault(parts[1], []).append(ln)
+
+    def key(cid):
+        try:
+            return int(cid[2:])
+        except ValueError:
+            return 1 << 30
+    return "".join("".join(blocks[c]) for c in sorted(blocks, key=key))
 
 
 def _count(path):
@@ -37,6 +53,30 @@ def run(ctx):
     # traces first: a scripted scenario makes the more readable replay when several cases fail the same clause
     files = [os.path.join(ctx.work, n) for n in ("supervisor_trace.cases", "supervisor.cases")]
     have = [p for p in files if os.path.exists(p) and os.path.getsize(p) > 0]
+    crash = re.search(r"^panic: (could not find [^\n]*)\n(?:.*\n)*?.*\(\*supervisor\)\.(processDied|processSchedule)", out, re.M)
+    if crash:
+        # the processor goroutine itself panicked in nodeByDN: a request referred to a node that no longer exists.
+        # That kills the whole process, so no trace of the scenario survives: report the scenarios that were in flight.
+        started, ended = {}, set()
+        sp = os.path.join(ctx.work, "supervisor_trace.started")
+        if os.path.exists(sp):
+            for ln in open(sp):
+                parts = ln.split()
+                if len(parts) >= 3:
+                    started[parts[1]] = parts[2]
+        tp = os.path.join(ctx.work, "supervisor_trace.cases")
+        if os.path.exists(tp):
+            for ln in open(tp):
+                if ln.startswith("end "):
+                    ended.add(ln.split()[1])
+        inflight = ["%s %s" % (k, v) for k, v in started.items() if k not in ended]
+        ctx.spec_violations.append({
+            "key": "processor-crashed",
+            "what": "spec - processor-crashed the supervisor's processor goroutine panicked in %s (%s): the process dies, "
+                    "nothing is ever restarted" % (crash.group(2), crash.group(1)[:200]),
+            "replay": {"family": "supervisor", "clause": "processor-crashed", "in_flight_scenarios": inflight,
+                       "panic": out[crash.start():crash.start() + 1500],
+                       "note": "scenarios are generated from VERIF_SEED by TestVerifSupervisorTrace (randN = N-th random scenario)"}})
     if rc != 0:
         tail = out[-1200:]
         kind = "data-race" if "DATA RACE" in out else "go-harness"
@@ -46,7 +86,10 @@ def run(ctx):
     allp = os.path.join(ctx.work, "supervisor.all.cases")
     with open(allp, "w") as g:
         for p in have:
-            g.write(open(p).read())
+            if p.endswith("supervisor_trace.cases"):
+                g.write(_sorted_traces(p))   # traces are written in completion order: put them back in scenario order
+            else:
+                g.write(open(p).read())
     n_ok, stats = ctx.judge("supervisor", allp, classify)
     ncases, nops, samples = _count(allp)
     ctx.cov["evaluations"] += nops
